@@ -87,7 +87,8 @@ def loader_family(tier, seed):
             return "<Obj>"
 
     def custom_factory():
-        raise AssertionError
+        # a correct generator never calls the factory; one that does (hoisting) gets a tagged result
+        return ["factory-result"]
     tag(custom_factory, "factory:custom")
 
     # field kinds: name -> (is_required, default maker)
@@ -167,6 +168,7 @@ def loader_family(tier, seed):
         "p_k_dv_w": [("a", "R", "P", "a"), ("b", "R", "K", "b"), ("c", "DV", "K", "c"), ("d", "DVO", "W", "d")],
         "renamed": [("a", "R", "K", "a_param"), ("b", "DV", "W", "b_param")],
         "three": [("a", "R", "K", "a"), ("b", "R", "K", "b"), ("c", "DV", "K", "c")],
+        "r_dv_dv": [("a", "R", "K", "a"), ("b", "DV", "K", "b"), ("c", "DVN", "K", "c")],
     }
     # crowns for 1..3 fields named a,b,c(,d)
     def crowns_for(ids, opt_ids):
@@ -215,7 +217,7 @@ def loader_family(tier, seed):
                             ("collect", "forbid", "saturate"), ("skip", "skip", "kwargs")]
             if quick:
                 # keep the quick family small but covering: every crown kind; policies and modes on a subset
-                if sname not in ("r2", "r_dv", "r_o", "p_k_dv_w", "r_dvo", "r_dfo", "renamed"):
+                if sname not in ("r2", "r_dv", "r_o", "p_k_dv_w", "r_dvo", "r_dfo", "renamed", "r_dv_dv"):
                     continue
                 if sname not in ("r2", "r_o"):
                     pol_variants = pol_variants[:1] if cname != "flat" else pol_variants[:3]
